@@ -119,6 +119,7 @@ type Point struct {
 
 // Sched is one controlled execution.
 type Sched struct {
+	quiet    bool       // set-up phase (see Quiet)
 	mu       sync.Mutex // protects nothing hot; only used for end-of-run signalling
 	threads  []*thread
 	running  *thread
@@ -152,6 +153,17 @@ var (
 )
 
 func active() *Sched { return cur }
+
+// Quiet switches the set-up phase on or off (harness only). While it is on, the scheduler follows
+// one fixed schedule (the running thread while it can run, else the lowest thread id) and records
+// no decision points: a scenario can bring the system into the state it wants to explore from
+// without paying for the interleavings of getting there. The phase is deterministic, so replay is
+// unaffected.
+func Quiet(on bool) {
+	if s := active(); s != nil {
+		s.quiet = on
+	}
+}
 
 // Options configure one execution.
 type Options struct {
@@ -528,6 +540,9 @@ func (s *Sched) pick(t *thread, o *op) *thread {
 		}
 		if len(cands) == 1 {
 			return cands[0]
+		}
+		if s.quiet {
+			return cands[0] // set-up phase: one fixed schedule, no decision points (see Quiet)
 		}
 		free := !runningEnabled || o.kind == opYield || o.kind == opExit
 		if runningEnabled && !free && !s.isShared(o) {
